@@ -8,7 +8,7 @@ Extension of `Gmx.Life` (the deposit-only machine stays untouched). Every action
 out by a withdrawal or a swap) are PARAMETERS `x y` of `exec` (the harness declares the amounts observed on the
 real program and checks them); everything else — acceptance, outcome class, every balance of users, escrows,
 vaults, recorded market balances, minted / burned market tokens, the fee — is computed. Tied to the real
-`gmsol_store::entry` by `harness/h_store/src/bin/life2.rs`. Core only.
+`gmsol_store::entry` by `harness/h_store/src/bin/l2life.rs`. Core only.
 -/
 namespace Gmx.Life2
 open Gmx.Life (Who HEARTBEAT REQUEST_EXPIRATION)
